@@ -488,9 +488,15 @@ static void generate_minimal_hash(Ports &p, Port_Matcher &pm)
     cvec_t args;
 
     bool enump = false;
-    for(unsigned i=0; i<p.ports.size(); ++i)
+    for(unsigned i=0; i<p.ports.size(); ++i) {
         if(strchr(p.ports[i].name, '#'))
             enump = true;
+        //the hash only looks at the address up to the first '/', so it
+        //can not find names like "a/b" which have more behind it
+        const char *slash = strchr(p.ports[i].name, '/');
+        if(slash && slash[1] && slash[1] != ':')
+            enump = true;
+    }
     if(enump)
         return;
     for(unsigned i=0; i<p.ports.size(); ++i)
